@@ -97,13 +97,12 @@ theorem potMeta_toDisk_lt (m : Meta) (x : Sentinel) (hx : x ≠ .queuedLocally)
   simp only [potMeta, toDisk, add_queued_ne _ _ hx]
   omega
 
-theorem potMeta_joblog_le (m : Meta) : potMeta (toDisk .log (unq m)) ≤ potMeta m :=
-  Nat.le_trans (potMeta_toDisk_le _ _ (by simp)) (potMeta_unq_le m)
+theorem potMeta_joblog_le (m : Meta) : potMeta (toDisk .log m) ≤ potMeta m :=
+  potMeta_toDisk_le _ _ (by simp)
 
 theorem potMeta_joblog_lt (m : Meta) (h : m.disk.has .log = false) :
-    potMeta (toDisk .log (unq m)) < potMeta m :=
-  Nat.lt_of_lt_of_le (potMeta_toDisk_lt _ _ (by simp) (by simpa [unq, has_del] using h))
-    (potMeta_unq_le m)
+    potMeta (toDisk .log m) < potMeta m :=
+  potMeta_toDisk_lt _ _ (by simp) h
 
 /-! ### the cache state of an object changes only when its potential goes down -/
 
@@ -209,8 +208,7 @@ theorem obj_step {s : State} {e : Ev} (hen : enabled s e = true) (hq : e.quiet s
     split
     · rename_i heq; subst heq
       right
-      exact ⟨by simp only [toDisk, unq]; exact metaState_del_q _,
-        Nat.add_le_add_right (potMeta_joblog_le _) _⟩
+      exact ⟨rfl, Nat.add_le_add_right (potMeta_joblog_le _) _⟩
     · exact Or.inr ⟨rfl, Nat.le_refl _⟩
   case jobend o x =>
     split
@@ -537,9 +535,9 @@ theorem roleObj_launch {k r m} (h : RoleObj k r m) (hj : jobObj k r = true) :
   constructor <;> simp only [put, has_add] <;> grind
 
 theorem roleObj_joblog {k r m} (h : RoleObj k r m) (hj : m.disk.has .jobinfo = true) :
-    RoleObj k r (toDisk .log (unq m)) := by
+    RoleObj k r (toDisk .log m) := by
   obtain ⟨h1, h2⟩ := h
-  constructor <;> simp only [toDisk, unq, has_add, has_del] <;> grind
+  constructor <;> simp only [toDisk, has_add] <;> grind
 
 theorem roleObj_jobend {k r m x} (h : RoleObj k r m) (hj : m.disk.has .jobinfo = true)
     (hx : x = .complete ∨ x = .errors ∨ x = .assert) : RoleObj k r (toDisk x m) := by
@@ -1369,8 +1367,6 @@ theorem aliveInv_init (g : List NodeInfo) : AliveInv (init g) := by
   intro n f r _ hj; simp [init, State.m, aget] at hj
 
 /-- decidable sufficient check of `AliveInv` on a concrete state -/
-def aliveOk (s : State) : Bool :=
-  s.metas.all fun p => p.1.r == Role.fork || !p.2.disk.jobinfo || p.2.disk.complete || s.alive.contains p.1
 
 theorem aget_mem_or_default {κ α} [DecidableEq κ] (d : α) (l : List (κ × α)) (k : κ) :
     aget d l k = d ∨ (k, aget d l k) ∈ l := by
